@@ -35,6 +35,7 @@ ASSUMPTIONS = [
     "an Equilibrium is only required to refuse wrong dimensions (it also refuses right dimensions in non-molar units; not judged)",
 ]
 SUBST = ("A", "B", "C", "D")
+EXP_LAWS = ("arrhenius", "eyring", "eyringhs")
 ALT_SHARE = 6
 
 
@@ -60,13 +61,13 @@ def _used(rxns):
 def _law_param(rec, form, gv):
     """the `param` of a reaction for one way of giving its constants: form "inline" (quantities inside the
     expression) or "keys" (unique keys only; the values come as parameters or substitutions)"""
-    from chempy.kinetics.rates import MassAction, Arrhenius, Eyring, Radiolytic
+    from chempy.kinetics.rates import MassAction, Arrhenius, Eyring, EyringHS, Radiolytic
     law = rec.get("law", "mass")
     if law == "mass":
         return _q(rec["k"], gv) if form == "inline" else rec["name"]
     if law == "radiolytic":
         return Radiolytic([_q(rec["k"], gv)]) if form == "inline" else Radiolytic.fk(rec["name"])
-    cls = {"arrhenius": Arrhenius, "eyring": Eyring}[law]
+    cls = {"arrhenius": Arrhenius, "eyring": Eyring, "eyringhs": EyringHS}[law]
     if form == "inline":
         return MassAction(cls([_q(rec["k"], gv), _q(rec["ea"], gv)]))
     return MassAction(cls(unique_keys=(rec["name"], rec["ename"])))
@@ -75,7 +76,7 @@ def _law_param(rec, form, gv):
 def _values(rec, gv):
     """name -> quantity for the constants of one reaction"""
     out = {rec["name"]: _q(rec["k"], gv)}
-    if rec.get("law", "mass") in ("arrhenius", "eyring"):
+    if rec.get("law", "mass") in EXP_LAWS:
         out[rec["ename"]] = _q(rec["ea"], gv)
     return out
 
@@ -92,7 +93,7 @@ def _try_reaction(rx, param, cls=None):
 
 
 # --------------------------------------------------------------------------- executing a case
-def _eval_rates(rsys, reg, mode, conc, t0, params, oc=None, ot=None, subs=None):
+def _eval_rates(rsys, reg, mode, conc, t0, params, oc=None, ot=None, subs=None, use_constants=False):
     """get_odesys through its own callbacks -> unitless arrays and unitless f"""
     from chempy.kinetics.ode import get_odesys
     kw = {}
@@ -102,6 +103,9 @@ def _eval_rates(rsys, reg, mode, conc, t0, params, oc=None, ot=None, subs=None):
         kw["output_time_unit"] = ot
     if subs:
         kw["substitutions"] = subs
+    if use_constants:       # kB, h, R are looked up in this namespace
+        import chempy.units as cu
+        kw["constants"] = cu.default_constants
     odesys, extra = get_odesys(rsys, include_params=(mode in ("inline", "subs")), unit_registry=reg, **kw)
     x, y, p = odesys.to_arrays(t0, conc, params)
     _x, _y, _p = odesys.pre_process(x, y, p)
@@ -237,7 +241,8 @@ def run_case(case):
                         rxns.append(Reaction(_stoich(r["rx"]["reac"]), _stoich(r["rx"]["prod"]), param=_law_param(r, "keys", gv)))
                         (subs if mode == "subs" else params).update(_values(r, gv))
                 env = a["env"]
-                if any(r.get("law", "mass") in ("arrhenius", "eyring") for r in recs):
+                use_constants = any(r.get("law", "mass") == "eyringhs" for r in recs)
+                if any(r.get("law", "mass") in EXP_LAWS for r in recs):
                     if env["tsrc"] == "param":
                         params["temperature"] = _q(a["temp"], gv)
                     elif env["tsrc"] == "subs":
@@ -256,8 +261,8 @@ def run_case(case):
                 nxt = [b for b in cin["ops"] if b["op"] == "output"]
                 oc = uc.unit_expr(nxt[0]["oc"]) if nxt else None      # None (empty expression) = keyword left out
                 ot = uc.unit_expr(nxt[0]["ot"]) if nxt else None
-                odesys, extra, obs = _eval_rates(rsys, reg, mode, conc, t1, params, oc, ot, subs)
-                if mode == "inline" and env["tsrc"] != "ramp":
+                odesys, extra, obs = _eval_rates(rsys, reg, mode, conc, t1, params, oc, ot, subs, use_constants)
+                if mode == "inline" and env["tsrc"] != "ramp" and not use_constants:
                     # the same rates straight from the reaction system, fed with quantities
                     try:
                         d = rsys.rates(dict(conc, **params, **{k: v for k, v in subs.items()}))
@@ -294,7 +299,7 @@ def _sum_terms(terms, gv):
     scale = Fraction(0)
     for t in terms:
         v = t["c"] * uc.num(t["r"], gv)
-        x = uc.num(t["x"], gv) if "x" in t else 0
+        x = (uc.num(t["x"], gv) if "x" in t else 0) + (uc.num(t["x2"], gv) if "x2" in t else 0)
         if x != 0:     # the rate is r * exp(-x): the exponential is the plain routine on the spec's exact argument
             v = v * Fraction(math.exp(-float(x)))
         tot += v
@@ -344,8 +349,8 @@ def judge(case, i, a, obs, e, gv):
             if not _is_named(j, a["mode"]):
                 continue
             want = [(r["name"], e["kin"][j - 1], e["p_units"][j - 1])]
-            if r.get("law", "mass") in ("arrhenius", "eyring"):
-                want.append((r["ename"], e["ein"][j - 1], e["t_unit"]))
+            if r.get("law", "mass") in EXP_LAWS:
+                want.append((r["ename"], e["ein"][j - 1], e["e_units"][j - 1]))
             for n, val, unit in want:
                 if n not in obs["kin"] or not uc.close(obs["kin"][n], uc.num(val, gv), ctol):
                     return "to_arrays-parameter", "get_odesys"
@@ -531,7 +536,9 @@ class Gen(object):
     def rat(self):
         return [self.r.choice([1, 2, 3, 7, 11, 13, 17, 250, 999]), self.r.choice([1, 1, 2, 3, 7, 8, 10, 125, 1000])]
 
-    def mild(self):
+    def mild(self, zero=0.0):
+        if self.r.random() < zero:
+            return [0, 1]          # an absent substance
         return [self.r.choice([1, 2, 3, 7]), self.r.choice([1, 2, 8, 10])]
 
     def rx(self, order=None):
@@ -560,7 +567,7 @@ class Gen(object):
             rx = self.rx()
             order = sum(rx["reac"].values())
             rxns.append({"rx": rx, "kmag": self.rat(), "kux": self.kux(order, j == wrong_at), "name": "k%d" % (j + 1)})
-        conc = {s: {"mag": self.rat(), "ux": self.r.choice(_CONC)} for s in SUBST}
+        conc = {s: {"mag": ([0, 1] if self.r.random() < 0.15 else self.rat()), "ux": self.r.choice(_CONC)} for s in SUBST}
         mode = self.r.choice(["inline", "named"])
         # generation stays inside the model (UnitKinetics!Buildable): every substance needs a right-hand side with a
         # symbol in it, else the symbolic ODE back end cannot build the system, units or not
@@ -601,7 +608,7 @@ class Gen(object):
             calls.append({"op": self.r.choice(["solve", "solve", "validate"]),
                           "call": {"ks": [{"mag": self.mild(), "ux": self.kux(sum(r["rx"]["reac"].values()), j == wrong_at)}
                                           for j, r in enumerate(rxns)],
-                                   "conc": {s: {"mag": self.mild(), "ux": self.r.choice(_CONC[:3] + _CONC[4:5])} for s in SUBST},
+                                   "conc": {s: {"mag": self.mild(zero=0.3), "ux": self.r.choice(_CONC[:3] + _CONC[4:5])} for s in SUBST},
                                    "t1": {"mag": [self.r.choice([1, 3, 7]), self.r.choice([8, 100, 1000])],
                                           "ux": [{"n": self.r.choice(["s", "ms", "min"]), "p": 1}]}}})
         return {"kind": "solver", "rxns": rxns, "reg": base["reg"], "calls": calls}
@@ -717,7 +724,8 @@ def run(ctx):
     fails = 0
     for cfg, res in zip(cfgs, results):
         heavy = cfg.split("_")[0] in ("rates", "regs", "solver", "laws", "subs", "rad")
-        sel = ctx.pick(res.cases, ({"solver_q": 60, "laws_q": 80, "rad_q": 60}.get(cfg, 110) if heavy else 1000) if ctx.quick else None)
+        sel = ctx.pick(res.cases, ({"solver_q": 60, "laws_q": 80, "rad_q": 60}.get(cfg, 110) if heavy else 1000) if ctx.quick
+                       else ({"solver_t": 4000}.get(cfg)))
         for k, c in enumerate(sel):
             c["alt"] = heavy and (int(core.stable_hash(c["in"]), 16) % ALT_SHARE == 0)
         _t1 = _time.time()
